@@ -49,6 +49,12 @@ def usub (m : Mode) (a b : Nat) : Res Nat :=
     | .debug => throw .panic
     | .release => pure (a + WORD - b)
 
+/-- `a / b` on `usize`: "attempt to divide by zero" panics in both profiles. -/
+def udiv (a b : Nat) : Res Nat := if b = 0 then throw .panic else pure (a / b)
+
+/-- `a % b` on `usize`: "attempt to calculate the remainder with a divisor of zero" panics in both profiles. -/
+def urem (a b : Nat) : Res Nat := if b = 0 then throw .panic else pure (a % b)
+
 /-- `usize::overflowing_mul`. -/
 def omul (a b : Nat) : Nat × Bool := (a * b % WORD, decide (WORD ≤ a * b))
 
@@ -59,6 +65,8 @@ theorem umul_ok (m : Mode) (a b : Nat) (h : a * b < WORD) : umul m a b = .ok (a 
   simp [umul, h]
 theorem uadd_ok (m : Mode) (a b : Nat) (h : a + b < WORD) : uadd m a b = .ok (a + b) := by
   simp [uadd, h]
+theorem udiv_ok (a b : Nat) (h : b ≠ 0) : udiv a b = .ok (a / b) := by simp [udiv, h]
+theorem urem_ok (a b : Nat) (h : b ≠ 0) : urem a b = .ok (a % b) := by simp [urem, h]
 theorem usub_ok (m : Mode) (a b : Nat) (h : b ≤ a) : usub m a b = .ok (a - b) := by
   simp [usub, h]
 
